@@ -772,7 +772,7 @@ theorem prepareWithHistory_switch {d d' : Defects} (h1 : d.roomRowUnchecked = d'
   simp only [checkNewAuths_switch h2]
 
 /-- the candidate has none of the shapes the code does not check (today: the placing references) -/
-def candGuard (_s : RStore) (cand : RoomNode) : Bool := cand.placingOk && cand.idsDistinct
+def candGuard (_s : RStore) (cand : RoomNode) : Bool := cand.placingOk
 
 /-- **C07_partial, as an equation**: on candidates whose placing references are signed by the
     entries' authors with the right label and source entity, the code as written takes exactly the
@@ -780,9 +780,8 @@ def candGuard (_s : RStore) (cand : RoomNode) : Bool := cand.placingOk && cand.i
 theorem accept_congr {s : RStore} {cand : RoomNode} (g : candGuard s cand = true) :
     accept Defects.asImplemented s cand = accept Defects.none s cand := by
   unfold candGuard at g
-  simp only [Bool.and_eq_true] at g
   unfold accept
-  simp only [g.1, g.2, Bool.not_true, Bool.and_false, Bool.false_eq_true, if_false]
+  simp only [g, Bool.not_true, Bool.and_false, Bool.false_eq_true, if_false]
   have h : ∀ room old, prepareWithHistory Defects.asImplemented room old cand = prepareWithHistory Defects.none room old cand :=
     fun room old => prepareWithHistory_switch (d := Defects.asImplemented) (d' := Defects.none) rfl rfl room old cand
   simp only [h]
